@@ -107,6 +107,11 @@ class Exporter:
         self.track = None       # statement node to wrap in a "track" record
         self.track_fields = {}
         self.skip_opaque_symbols = False
+        # imported module variables the case gives a type to: {lower name: "r"|"i"|"l"};
+        # they are global inputs named "<container>::<name>" (a flat store must keep them
+        # apart from same-named locals of other routines)
+        self.import_types = {}
+        self.imports_seen = {}
         self.track_range = None  # (schedule node, first, last+1): statements to track
 
     # ------------------------------------------------------------ expressions
@@ -139,7 +144,7 @@ class Exporter:
         if isinstance(node, N.StructureReference):
             return self.sref(node)
         if isinstance(node, N.Reference):
-            return {"k": "ref", "name": node.symbol.name.lower()}
+            return {"k": "ref", "name": self._name(node.symbol)}
         if isinstance(node, N.UnaryOperation):
             return {"k": "un", "op": _UNOPS[node.operator.name],
                     "e": self.expr(node.children[0])}
@@ -178,6 +183,17 @@ class Exporter:
         if idx:
             return {"k": "aref", "name": name, "idx": idx}
         return {"k": "ref", "name": name}
+
+    def _name(self, sym):
+        '''store name of a scalar symbol: imported module variables are qualified'''
+        if getattr(sym, "is_import", False):
+            low = sym.name.lower()
+            if low not in self.import_types:
+                raise Unsupported("imported symbol " + sym.name)
+            q = sym.interface.container_symbol.name.lower() + "::" + low
+            self.imports_seen[q] = self.import_types[low]
+            return q
+        return sym.name.lower()
 
     def index(self, node):
         N, _ = _imports()
@@ -361,6 +377,25 @@ class Exporter:
                 if meth in ("predeclarevariable", "providevariable", "preenddeclaration",
                             "preend", "poststart"):
                     return {"k": "nop"}
+        if asts and all(isinstance(a, (F.Write_Stmt, F.Print_Stmt)) for a in asts):
+            # list-directed output of plain variables: an observable event; the names are
+            # resolved in the scope the code block now sits in (case-insensitively)
+            out = []
+            for a in asts:
+                names = node.get_symbol_names() if len(asts) == 1 else None
+                items = a.items[-1]
+                txt = str(items) if items is not None else ""
+                refs = []
+                for nm in [x.strip() for x in txt.split(",") if x.strip()]:
+                    if not re.match(r"^[A-Za-z_]\w*$", nm):
+                        raise Unsupported("output item " + nm)
+                    try:
+                        sym = node.scope.symbol_table.lookup(nm)
+                    except KeyError:
+                        raise Unsupported("output item does not resolve: " + nm)
+                    refs.append({"k": "ref", "name": self._name(sym)})
+                out.append({"k": "print", "args": refs})
+            return out
         if len(asts) == 1:
             a = asts[0]
             if isinstance(a, F.Exit_Stmt) and a.items[1] is None:
@@ -545,6 +580,9 @@ class Exporter:
                 out.extend(self._flatten(sym.name.lower(), stype,
                                          "in" if is_input else "poison", bool(sym.is_argument), pre))
                 continue
+            if sym.is_import and sym.name.lower() in self.import_types:
+                self._name(sym)          # declared below from imports_seen
+                continue
             if sym.is_import or sym.is_unresolved:
                 raise Unsupported("imported/unresolved symbol " + sym.name)
             d = {"name": sym.name.lower(), "ty": _ty(sym.datatype), "dims": []}
@@ -610,6 +648,8 @@ class Exporter:
         '''{"decls", "body", "subs"} of a top-level routine.'''
         decls, prelude = self.decls(routine)
         body = prelude + self.body(routine)
+        for q, ty in sorted(self.imports_seen.items()):
+            decls.append({"name": q, "ty": ty, "dims": [], "init": "in", "arg": False})
         for t in self._temps[-1]:       # results of hoisted function references
             decls.append({"name": t["name"], "ty": t["ty"], "dims": [],
                           "init": "poison", "arg": False})
